@@ -457,10 +457,10 @@ func runCheck(args []string) {
 		}
 		known := map[string]bool{}
 		for _, gn := range base.Groups[*prop] {
-			known[gn] = true
+			known[normGroup(gn)] = true
 		}
 		for _, gn := range order {
-			if !known[gn] && !strings.Contains(gn, "/safety:") && !strings.Contains(gn, "/frame:") && !strings.Contains(gn, "/finding:") {
+			if !known[normGroup(gn)] && !strings.Contains(gn, "/safety:") && !strings.Contains(gn, "/frame:") && !strings.Contains(gn, "/finding:") && !strings.Contains(gn, "/cover:") && !strings.Contains(gn, "config-cover:") && !strings.Contains(gn, "split-cover:") {
 				newGroups = append(newGroups, gn)
 			}
 		}
